@@ -50,6 +50,6 @@ Print Assumptions C02_linker_stream_total.
 (* The composed layout of ALL section writers (Image.v, in the order of the regenerated stream plan, with the real
    write_at semantics): whatever the content - any number of threads, modules, regions, names, descriptors, any
    failed soft step - building the image never errs and never takes the Panic outcome. *)
-Theorem C02_whole_image_total : forall c, exists dirs s', image c empty_wst = MemWriter.Ok (dirs, s').
+Theorem C02_whole_image_total : forall c, exists r s', image c empty_wst = MemWriter.Ok (r, s').
 Proof. exact image_total. Qed.
 Print Assumptions C02_whole_image_total.
